@@ -295,6 +295,73 @@ def rule_castle_masks(ctx):
     ctx.check(len(att) == 1 and "current_turn" in expr_str(att[0]) and all("get_attacked_squares" in s for s in src), "no_checks:attacked-from-movers-perspective", "the attack test uses get_attacked_squares(current_turn)", b.where(0), bad_what="the attack test uses %s / %s" % ([expr_str(a) for a in att], sorted(src)))
 
 
+def castle_moves_by_cases(ix, b):
+    """{kind: (from, colour, to, flag)} of the castling moves King::get_moveset builds, by per-case propagation with the king's
+    colour and square fixed; None when a case cannot be walked or a castling move is built for a king that is not at home."""
+    from . import cases
+    sqp = [b.local_name(l) for l in range(1, b.arg_count + 1) if b.locals[l]["ty"].lstrip("&") == "board::square::Square"]
+    cop = [b.local_name(l) for l in range(1, b.arg_count + 1) if b.locals[l]["ty"].lstrip("&") == "board::piece::Color"]
+    if len(sqp) != 1 or len(cop) != 1:
+        return None
+    names = {(0, 4): "e1", (7, 4): "e8"}
+    rows = {}
+
+    def sq_name(e):
+        e = mir.strip_copies(e)
+        if e[0] == "agg" and str(e[1]).endswith("square::Square") and len(e[3]) == 2 and all(x[0] == "const" for x in e[3]):
+            f = dict(zip(e[4] if len(e) > 4 and e[4] else ("rank", "file"), [x[1] for x in e[3]]))
+            return "%s%d" % ("abcdefgh"[f["file"]], f["rank"] + 1) if 0 <= f.get("file", 9) < 8 and 0 <= f.get("rank", 9) < 8 else None
+        if e[0] == "call" and e[1].endswith("From<&str>>::from") and e[2] and e[2][0][0] == "const":
+            return e[2][0][1]
+        return None
+    for col in ("White", "Black"):
+        for pos in ((0, 4), (7, 4), (0, 3)):
+            sqv = ("agg", "board::square::Square", "Square", (("const", pos[0], "u8"), ("const", pos[1], "u8")), ("rank", "file"))
+            run = cases.run(ix, b, {sqp[0]: sqv, cop[0]: cases.enum_val(ix, "board::piece::Color", col)})
+            if run.overflow:
+                return None
+            for p in run.paths:
+                kind = None
+                pending = None
+                # the wings whose right this path has found Available
+                avail = set()
+                for cnd in p.conds:
+                    d, t = cases.cond_truth(cnd)
+                    ck = [y for y in walk(d) if isinstance(y, tuple) and y[0] == "call" and y[1] == B_ + "castling_ability" and len(y[2]) > 1]
+                    if len(ck) != 1:
+                        continue
+                    k = mir.strip_copies(ck[0][2][1])
+                    k = k[2] if k[0] == "agg" else None
+                    if d[0] == "call" and d[1].endswith("CastlingStatus as std::cmp::PartialEq>::eq") and t is True and c04.status_of(d) == "Available":
+                        avail.add(k)
+                    elif d[0] == "call" and d[1].endswith("CastlingStatus as std::cmp::PartialEq>::ne") and t is False and c04.status_of(d) == "Available":
+                        avail.add(k)
+                    elif d[0] == "discr" and isinstance(cnd[1], int):
+                        a = ix.adts.get("board::ply::castling::CastlingStatus")
+                        if a is not None and cnd[1] < len(a["variants"]) and a["variants"][cnd[1]]["name"] == "Available":
+                            avail.add(k)
+                for e in p.events:
+                    if e[0] != "call":
+                        continue
+                    if e[2] == B_ + "castling_ability":
+                        k = mir.strip_copies(e[3][1]) if len(e[3]) > 1 else None
+                        kind = k[2] if k is not None and k[0] == "agg" and str(k[1]).endswith("CastlingKind") else "?"
+                        pending = None
+                    elif e[2] == "board::ply::Ply::builder" and kind is not None and len(e[3]) == 3:
+                        pc = mir.strip_copies(e[3][2])
+                        pending = (sq_name(e[3][0]), pc[3][0][2] if pc[0] == "agg" and pc[2] == "King" and pc[3] and pc[3][0][0] == "agg" else None, sq_name(e[3][1]))
+                    elif e[2].endswith("Builder::castles") and pending is not None and kind is not None:
+                        flag = len(e[3]) > 1 and e[3][1] == ("const", 1, "bool")
+                        home = names.get(pos)
+                        if home is None or pending[0] != home or kind not in avail:
+                            return None     # a castling move for a king that is not on its home square, or without the right
+                        if kind in rows and rows[kind] != pending + (flag,):
+                            return None
+                        rows[kind] = pending + (flag,)
+                        pending = None
+    return rows
+
+
 def rule_castle_moves(ctx):
     ix = ctx.ix
     b = ctx.body(KING_MS)
@@ -328,11 +395,40 @@ def rule_castle_moves(ctx):
         flag = bool(cs) and cs[0][2][1] == ("const", 1, "bool")
         rows[kind] = (origin, colour, dest[0] if dest else None, flag)
     want = {"WhiteKingside": ("e1", "White", "g1", True), "WhiteQueenside": ("e1", "White", "c1", True), "BlackKingside": ("e8", "Black", "g8", True), "BlackQueenside": ("e8", "Black", "c8", True)}
+    if rows != want:
+        # the same table read by walking the generator for a king of each colour on e1, e8 and d1 (a loop over the two wings,
+        # destinations computed from the king's square, ...)
+        by_cases = castle_moves_by_cases(ix, b)
+        if by_cases is not None:
+            rows = by_cases
     for k in sorted(want):
         ctx.check(rows.get(k) == want[k], "king:castle-move:%s" % k, "%s: king on %s of %s, castling_ability(%s) Available -> move to %s flagged castles(true)" % ((k,) + want[k][:2] + (k, want[k][2])), b.where(0),
                   bad_what="castling move for %s is generated as (from, colour, to, castles flag) = %s, expected %s" % (k, rows.get(k), want[k]))
     ctx.check(set(rows) == set(want), "king:castle-moves:four", "exactly four castling moves are generated", b.where(0), bad_what="castling moves generated for %s" % sorted(map(str, rows)))
     c01tables.check_rook_tables(ctx)
+
+
+_PAWN_TUPLE = {}
+
+
+def _component(e):
+    """Which of (direction, start rank, en-passant rank, back rank) a field path into the per-colour tuple denotes, whether
+    the tuple is flat or `(direction, RANKS)` with a named triple: the index of the leaf in order."""
+    sizes = _PAWN_TUPLE.get("sizes")
+    if not (isinstance(e, tuple) and e[0] == "field") or not sizes:
+        return None
+    path = [n for n in e[2:]]
+    if not path or not all(n.isdigit() for n in path):
+        return None
+    top = int(path[0])
+    if top >= len(sizes):
+        return None
+    base = sum(sizes[:top])
+    if len(path) == 1:
+        return base if sizes[top] == 1 else None
+    if len(path) == 2 and int(path[1]) < sizes[top]:
+        return base + int(path[1])
+    return None
 
 
 def rule_pawn_table(ctx):
@@ -343,12 +439,26 @@ def rule_pawn_table(ctx):
     tup = {}
     for bi, i, s in b.stmts():
         rv = s["rv"]
-        if rv.get("k") == "agg" and rv.get("agg") == "tuple" and len(rv["ops"]) == 4:
+        if rv.get("k") == "agg" and rv.get("agg") == "tuple" and 2 <= len(rv["ops"]) <= 4:
             v = sym.rvalue(rv)
+            # (direction, start, ep, back) or (direction, RANKS) with a named triple: the leaves in order
+            leaves = []
+            sizes = []
+            for x in v[3]:
+                x = mir.strip_copies(x)
+                if x[0] == "agg" and x[1] == "tuple":
+                    leaves.extend(mir.strip_copies(y) for y in x[3])
+                    sizes.append(len(x[3]))
+                else:
+                    leaves.append(x)
+                    sizes.append(1)
+            _PAWN_TUPLE["sizes"] = sizes
+            if len(leaves) != 4 or not (leaves[0][0] == "agg" and str(leaves[0][1]).endswith("square::Direction")):
+                continue
             cons = C.constraints_for(ix, b, sym, bi)
             col = [next(iter(c[1])) for c in cons if len(c[1]) == 1 and next(iter(c[1])) in ("White", "Black")]
-            d = v[3][0]
-            tup[col[-1] if col else None] = (d[2] if d[0] == "agg" else expr_str(d), ceval(v[3][1]), ceval(v[3][2]), ceval(v[3][3]))
+            d = leaves[0]
+            tup[col[-1] if col else None] = (d[2] if d[0] == "agg" else expr_str(d), ceval(leaves[1]), ceval(leaves[2]), ceval(leaves[3]))
     want = {"White": ("North", 1, 4, 7), "Black": ("South", 6, 3, 0)}
     ctx.check(tup == want, "pawn:direction-and-ranks", "White: North, start rank 1, en-passant rank 4, back rank 7; Black: South, 6, 3, 0", b.where(0), bad_what="pawn table is %s" % tup)
     if tup == want:
@@ -374,9 +484,9 @@ def rule_pawn_table(ctx):
         d = pbs[0][2][1] if pbs else None
         # square + direction + direction, where `direction` is component 0 of the per-colour tuple
         ok = bool(d) and d[0] == "call" and d[1].endswith("Direction>>::add") and d[2][0][0] == "call" and d[2][0][1].endswith("Direction>>::add") and d[2][0][2][0] == ("arg", "square") \
-            and d[2][1] == d[2][0][2][1] and d[2][1][0] == "field" and d[2][1][-1] == "0"
+            and d[2][1] == d[2][0][2][1] and _component(d[2][1]) == 0
         cons = C.constraints_for(ix, b, sym, dpp[0][0])
-        on_start = any(c[3][0] == "bin" and c[3][1] == "Eq" and "square.rank" in expr_str(c[3][2]) and c[3][3][0] == "field" and c[3][3][-1] == "1" and True in c[1] for c in cons)
+        on_start = any(c[3][0] == "bin" and c[3][1] == "Eq" and "square.rank" in expr_str(c[3][2]) and _component(c[3][3]) == 1 and True in c[1] for c in cons)
         empties = sum(1 for c in cons if c[3][0] == "call" and c[3][1].endswith("Bitboard::is_empty") and True in c[1])
         ok = ok and on_start and empties >= 2
     ctx.check(ok, "pawn:double-push", "the two-square push is flagged double_pawn_push(true), goes two steps in `direction`, from the start rank with both squares empty", b.where(dpp[0][0] if dpp else 0),
@@ -399,7 +509,7 @@ def rule_pawn_table(ctx):
         capok = bool(cap) and cap[0][2][1][0] == "agg" and cap[0][2][1][2] == "Pawn" and "Color::opposite(color)" in expr_str(cap[0][2][1])
         flagok = const_int(t["args"][1]) == 1
         cons = C.constraints_for(ix, b, sym, bi)
-        rank_ok = any(c[3][0] == "bin" and c[3][1] == "Eq" and "square.rank" in expr_str(c[3][2]) and c[3][3][0] == "field" and c[3][3][-1] == "2" and True in c[1] for c in cons)
+        rank_ok = any(c[3][0] == "bin" and c[3][1] == "Eq" and "square.rank" in expr_str(c[3][2]) and _component(c[3][3]) == 2 and True in c[1] for c in cons)
         side = "East" if "Direction::East" in txt else "West" if "Direction::West" in txt else None
         sides.add(side)
         file_ok = any(ep_file_test(ix, c, side) for c in cons)
